@@ -620,11 +620,17 @@ func (c *VirtualTable) checkNotNull(values map[int]interface{}, insert bool) err
 	if c.schema == nil {
 		return nil
 	}
+	// A table without a PRIMARY KEY is declared with a hidden key column in
+	// front, so SQLite numbers the declared columns from 1.
+	first := 0
+	if c.usesRowID {
+		first = 1
+	}
 	for i, col := range c.schema.Columns {
-		if !col.NotNull || i == c.KeyCol {
+		if !col.NotNull || (!c.usesRowID && i == c.KeyCol) {
 			continue
 		}
-		v, assigned := values[i]
+		v, assigned := values[first+i]
 		if (assigned && v == nil) || (insert && !assigned) {
 			return ErrS3DBConstraintNotNull
 		}
